@@ -94,12 +94,38 @@ class TxnAnalysis:
                 m = _self_method_call(n)
                 if m and m in self.methods and self.summary(m, table, prims, seen):
                     res = True
+                # a function of the module, called by name or handed to map(): what it does, the caller does
+                cands = []
+                if isinstance(n.func, ast.Name):
+                    cands.append(n.func.id)
+                    if n.func.id == "map" and n.args and isinstance(n.args[0], ast.Name):
+                        cands.append(n.args[0].id)
+                    if n.func.id == "map" and n.args and isinstance(n.args[0], ast.Attribute) and norm(n.args[0].value) == "self" \
+                            and n.args[0].attr in self.methods and self.summary(n.args[0].attr, table, prims, seen):
+                        res = True
+                for cname in cands:
+                    h = self._module_function(cname)
+                    if h is not None and ("<fn>" + cname) not in seen:
+                        seen.add("<fn>" + cname)
+                        for x in ast.walk(h):
+                            if isinstance(x, ast.Call) and isinstance(x.func, ast.Attribute) and x.func.attr in prims:
+                                res = True
+                            if prims is RAISE_PRIMS and isinstance(x, ast.Raise):
+                                res = True
             if isinstance(n, ast.Attribute) and isinstance(n.value, ast.Name) and n.value.id == "self" \
                     and n.attr in self.methods and is_property(self.methods[n.attr]) \
                     and self.summary(n.attr, table, prims, seen):
                 res = True
         table[name] = res
         return res
+
+    def _module_function(self, name):
+        if getattr(self, "_ff", None) is None:
+            self._ff = self.pm.function_finder(self.rel)
+        try:
+            return self._ff(name)
+        except Exception:
+            return None
 
     def is_mut(self, name):
         return self.summary(name, self._mut, MUT_PRIMS)
@@ -333,6 +359,25 @@ def r_txn(E):
                 for c in _calls(loop):
                     if isinstance(c.func, ast.Attribute) and c.func.attr == "append" and norm(c.func.value) in aliases:
                         appended_in_loop = True
+            if loop is None:
+                # no explicit loop: the published list (bound to the attribute *before* anything is recomputed) is filled by
+                # `extend(map(f, …))` / `extend(<generator>)`, which appends one result at a time as they are produced — not
+                # by `= list(map(…))`, which binds the name only once everything went through
+                for st in rec.body:
+                    if isinstance(st, ast.Assign) and published is None and any(
+                            isinstance(t, ast.Attribute) and norm(t) == "self.recomputed_values" for t in st.targets) \
+                            and isinstance(st.value, (ast.List, ast.Name)) or (
+                                isinstance(st, ast.Assign) and published is None and any(
+                                    isinstance(t, ast.Attribute) and norm(t) == "self.recomputed_values" for t in st.targets)
+                                and isinstance(st.value, ast.Call) and norm(st.value.func) == "list" and not st.value.args):
+                        published = st
+                    if published is not None and isinstance(st, ast.Expr) and isinstance(st.value, ast.Call) \
+                            and isinstance(st.value.func, ast.Attribute) and st.value.func.attr == "extend" and st.value.args \
+                            and (isinstance(st.value.args[0], ast.GeneratorExp) or (
+                                isinstance(st.value.args[0], ast.Call) and norm(st.value.args[0].func) == "map")):
+                        al_ = {t.id for t in published.targets if isinstance(t, ast.Name)} | {"self.recomputed_values"}
+                        if norm(st.value.func.value) in al_ and st.lineno > published.lineno:
+                            appended_in_loop = True
             if not (published is not None and appended_in_loop):
                 res.findings.append(Finding(
                     "R-TXN", "ModelingUpdate.recompute_attributes :: partial progress not visible to the restore",
@@ -706,6 +751,26 @@ def _lockstep_pairs(T):
                     pairs[(it[5:], tgt)] = name
                 else:
                     notes.append(f"{name}: loop over {it} appends to {tgt} irregularly")
+        # the same one-for-one production without an explicit loop: `X.extend(map(f, self.L))`, `X.extend(f(v) for v in
+        # self.L)`, `X[:] = [f(v) for v in self.L]`
+        for st in ast.walk(fn):
+            src, tgt = None, None
+            if isinstance(st, ast.Expr) and isinstance(st.value, ast.Call) and isinstance(st.value.func, ast.Attribute) \
+                    and st.value.func.attr == "extend" and len(st.value.args) == 1:
+                src, tgt = st.value.args[0], norm(st.value.func.value)
+            elif isinstance(st, ast.Assign) and len(st.targets) == 1 and isinstance(st.targets[0], ast.Subscript) \
+                    and isinstance(st.targets[0].slice, ast.Slice) and st.targets[0].slice.lower is None \
+                    and st.targets[0].slice.upper is None:
+                src, tgt = st.value, norm(st.targets[0].value)
+            if src is None:
+                continue
+            over = None
+            if isinstance(src, ast.Call) and norm(src.func) == "map" and len(src.args) == 2:
+                over = norm(src.args[1])
+            elif isinstance(src, (ast.GeneratorExp, ast.ListComp)) and len(src.generators) == 1 and not src.generators[0].ifs:
+                over = norm(src.generators[0].iter)
+            if over and over.startswith("self."):
+                pairs[(over[5:], tgt)] = name
     return pairs, notes
 
 
@@ -737,6 +802,12 @@ def r_zip(E):
                         if isinstance(t, ast.Attribute) and isinstance(t.value, ast.Name) and t.value.id == "self" \
                                 and len(rets) == 1 and isinstance(rets[0].value, ast.Name):
                             alias[(m, rets[0].value.id)] = t.attr
+                        # the producer returns `[f(v) for v in self.L]`: one element per element of L, stored by the caller
+                        if isinstance(t, ast.Attribute) and isinstance(t.value, ast.Name) and t.value.id == "self" \
+                                and len(rets) == 1 and isinstance(rets[0].value, (ast.ListComp,)) \
+                                and len(rets[0].value.generators) == 1 and not rets[0].value.generators[0].ifs \
+                                and norm(rets[0].value.generators[0].iter).startswith("self."):
+                            pairs[(norm(rets[0].value.generators[0].iter)[5:], "self." + t.attr)] = m
     # an attribute assigned as alias of a local list before the loop (self.x = x = [])
     for name, fn in T.methods.items():
         for n in ast.walk(fn):
@@ -805,6 +876,25 @@ def r_zip(E):
     rel2, tw = pm.find_function(MU, "ModelingUpdate.link_simulated_and_baseline_twins")
     res.instances += 1
     loop = next((s for s in tw.body if isinstance(s, ast.For)), None)
+    gen_conds = []
+    if loop is not None and isinstance(loop.iter, ast.Call) and _self_method_call(loop.iter) in T.methods \
+            and isinstance(loop.target, ast.Tuple) and len(loop.target.elts) == 2:
+        # the pairs come out of a generator method: `for a, b in zip(…): [if …: continue]; yield a, b` reads as that loop
+        g = T.methods[_self_method_call(loop.iter)]
+        gl = next((x for x in g.body if isinstance(x, ast.For)), None)
+        ys = [y for y in ast.walk(g) if isinstance(y, ast.Yield)]
+        if gl is not None and len(ys) == 1 and isinstance(ys[0].value, ast.Tuple) and isinstance(gl.target, ast.Tuple) \
+                and [norm(x) for x in ys[0].value.elts] == [norm(x) for x in gl.target.elts]:
+            from ..astutil import clone as _clz, substitute_stmt as _ssz
+            ren = {a.id: ast.Name(id=b.id, ctx=ast.Load()) for a, b in zip(gl.target.elts, loop.target.elts)
+                   if isinstance(a, ast.Name) and isinstance(b, ast.Name)}
+            gen_conds = [_ssz(x, ren) for x in gl.body if isinstance(x, ast.If)]
+            view = _clz(loop)
+            view.iter = _clz(gl.iter)
+            for n_ in ast.walk(view):
+                for ch in ast.iter_child_nodes(n_):
+                    ch._parent = n_
+            loop = view
     ok = loop is not None and isinstance(loop.iter, ast.Call) and norm(loop.iter.func) == "zip" and \
         [norm(a) for a in loop.iter.args] == ["self.values_to_recompute", "self.recomputed_values"] and \
         ("values_to_recompute", "recomputed_values") in lock
@@ -816,7 +906,16 @@ def r_zip(E):
     else:
         # both directions are assigned
         res.instances += 1
-        if any(isinstance(x, (ast.Continue, ast.Break, ast.If)) for st in loop.body for x in ast.walk(st)):
+        # (a pair skipped because nothing stands in the recomputed value's place — `if simulated is None: continue` —
+        # has no twin to link; any other condition, a truth-value test in particular, leaves real values without twin)
+        def only_absent(iff):
+            t = iff.test
+            return isinstance(t, ast.Compare) and len(t.ops) == 1 and isinstance(t.ops[0], ast.Is) \
+                and isinstance(t.comparators[0], ast.Constant) and t.comparators[0].value is None \
+                and len(iff.body) == 1 and isinstance(iff.body[0], ast.Continue) and not iff.orelse
+        skips = [x for st in loop.body for x in ast.walk(st) if isinstance(x, (ast.Continue, ast.Break, ast.If))] + \
+            [c_ for c_ in gen_conds if not only_absent(c_)]
+        if skips:
             res.findings.append(Finding(
                 "R-ZIP", "twins :: conditional",
                 "link_simulated_and_baseline_twins skips some pairs (a condition / continue inside the loop): those "
@@ -825,6 +924,13 @@ def r_zip(E):
         a, b = [e.id for e in loop.target.elts] if isinstance(loop.target, ast.Tuple) else (None, None)
         links = {(norm(n.targets[0].value), n.targets[0].attr, norm(n.value)) for n in ast.walk(loop)
                  if isinstance(n, ast.Assign) and isinstance(n.targets[0], ast.Attribute)}
+        # x.simulation_twin, y.baseline_twin = y, x
+        for n in ast.walk(loop):
+            if isinstance(n, ast.Assign) and isinstance(n.targets[0], ast.Tuple) and isinstance(n.value, ast.Tuple) \
+                    and len(n.targets[0].elts) == len(n.value.elts):
+                for t_, v_ in zip(n.targets[0].elts, n.value.elts):
+                    if isinstance(t_, ast.Attribute):
+                        links.add((norm(t_.value), t_.attr, norm(v_)))
         for need, what in (((a, "simulation_twin", b), "baseline value -> its simulated twin"),
                            ((b, "baseline_twin", a), "simulated value -> its baseline twin")):
             res.instances += 1
